@@ -402,6 +402,17 @@ func (G *genuine) apply(v Variant, nc int) (groth16.Proof, []*big.Int, string, s
 			dst.Set(src)
 		case "mul":
 			zk.PMul(dst, dst, big.NewInt(v.Delta+2))
+		case "torsion":
+			// add a point of the cofactor torsion: pairs exactly like the original point,
+			// only the subgroup check of the verifier can reject it (G1 elements only)
+			if v.Target == "Bs" {
+				return nil, nil, "", "torsion only built for G1"
+			}
+			tp, ok := zk.TorsionG1(G.g.F.Name, q, dst, v.Idx)
+			if !ok {
+				return nil, nil, "", "no cofactor torsion on this curve"
+			}
+			zk.PAdd(dst, dst, tp)
 		}
 		return p, pub, "element " + v.Target + " " + v.Op, ""
 	case "commits":
@@ -565,7 +576,7 @@ func (G *genuine) dishonest(v Variant, pub []*big.Int) (groth16.Proof, []*big.In
 }
 
 var pubOps = []string{"inc", "dec", "zero", "delta", "copy", "swap", "shorter", "longer", "alt"}
-var elemOps = []string{"neg", "double", "inf", "add", "set", "other", "alt", "mul"}
+var elemOps = []string{"neg", "double", "inf", "add", "set", "other", "alt", "mul", "torsion", "torsion"}
 var commitOps = []string{"dropLast", "dropFirst", "dup", "swap2", "appendInf", "appendPoint", "nil", "appendForged"}
 var dishonestOps = []string{"wireAll", "wireNoRecompute", "publicW", "rowDrop"}
 
